@@ -47,7 +47,7 @@ func sliceShape(v ssa.Value) string {
 		base := "local"
 		x := t.X
 		if a, ok := x.(*ssa.Alloc); ok {
-			base = "local:" + a.Comment
+			base = "local:" + localRole(a)
 			// constant byte literal {'N'}
 			for _, r := range *a.Referrers() {
 				if ia, ok := r.(*ssa.IndexAddr); ok {
@@ -81,8 +81,8 @@ func ruleC28(c *Ctx) {
 		norm := func(s []string) string {
 			j := strings.Join(s, " ")
 			j = strings.ReplaceAll(j, "param:XPub", "xpub")
-			j = strings.ReplaceAll(j, "local:xpub", "xpub")
-			j = strings.ReplaceAll(j, "local:res", "res")
+			j = strings.ReplaceAll(j, "local:recv", "xpub")       // public side: the receiver is the xpub
+			j = strings.ReplaceAll(j, "local:XPub()", "xpub")     // private side: xpub := xprv.XPub()
 			return j
 		}
 		c.Require("sibling", "chainkd: private and public non-hardened derivation feed HMAC-SHA512 identically", norm(a) == norm(b) && len(a) >= 6, "private: %s | public: %s", norm(a), norm(b))
@@ -106,7 +106,7 @@ func ruleC28(c *Ctx) {
 					continue
 				}
 				al, ok := ia.X.(*ssa.Alloc)
-				if !ok || al.Comment != "res" {
+				if !ok || localRole(al) != "result" {
 					continue
 				}
 				// value = byte(sum & 0xff) with sum = int(xprv[i]) + int(res[i]) + (prev >> 8)
@@ -117,7 +117,7 @@ func ruleC28(c *Ctx) {
 						return false
 					}
 					a2, ok := i2.X.(*ssa.Alloc)
-					return ok && a2.Comment == "xprv" && sameValue(i2.Index, ia.Index, 3)
+					return ok && localRole(a2) == "recv" && sameValue(i2.Index, ia.Index, 3)
 				}, 8, nil)
 				if k, isK := ia.Index.(*ssa.Const); isK && k.Value != nil {
 					idx := k.Value.ExactString()
@@ -145,7 +145,7 @@ func ruleC28(c *Ctx) {
 			for _, b := range f.Blocks {
 				for _, in := range b.Instrs {
 					if sl, ok := in.(*ssa.Slice); ok {
-						if a, ok := sl.X.(*ssa.Alloc); ok && a.Comment == "xprv" {
+						if a, ok := sl.X.(*ssa.Alloc); ok && localRole(a) == "recv" {
 							if k, ok := sl.High.(*ssa.Const); ok && k.Value != nil && k.Value.ExactString() == "32" && sl.Low == nil {
 								return true
 							}
@@ -186,7 +186,7 @@ func ruleC28(c *Ctx) {
 	if ld != nil {
 		ok := false
 		for _, s := range callsTo(ld, false, "(blockchain/pseudohsm.keyStore).GetKey") {
-			ok = isParam("auth")(s.Common().Args[2])
+			ok = paramN(2)(s.Common().Args[2])
 		}
 		c.Require("dataflow", fname(ld)+": decryption uses the password presented with this call", ok, "keyStore.GetKey(alias, file, auth)")
 	}
@@ -261,7 +261,7 @@ func ruleC29(c *Ctx) {
 		}
 		c.Require("mustpass", fname(da)+": an address is returned only for this network's prefix, witness version 0 and a decoded program", ok && n >= 2, "%d address return(s)", n)
 		for _, s := range callsTo(da, false, "consensus.IsBech32SegwitPrefix") {
-			okp := isParam("param")(s.Common().Args[1])
+			okp := paramN(1)(s.Common().Args[1])
 			c.Require("dataflow", fname(da)+": the prefix is tested against the caller's network parameters", okp, "IsBech32SegwitPrefix(prefix, param)")
 		}
 	}
@@ -343,9 +343,9 @@ func ruleC30(c *Ctx) {
 			case "(golang.org/x/crypto/sha3.ShakeHash).Write", "(hash.Hash).Write", "(io.Writer).Write":
 				seq = append(seq, "prefix")
 			case "(protocol/bc/types.merkleNode).WriteTo":
-				if isParam("left")(ci.Common().Value) {
+				if paramN(0)(ci.Common().Value) {
 					seq = append(seq, "left")
-				} else if isParam("right")(ci.Common().Value) {
+				} else if paramN(1)(ci.Common().Value) {
 					seq = append(seq, "right")
 				}
 			}
@@ -401,7 +401,7 @@ func ruleC30(c *Ctx) {
 						if bo, isB := e.(*ssa.BinOp); isB && bo.Op.String() == "==" && mentions(bo, callsKey("(*container/list.List).Len"), 3, nil) {
 							have := factsAt(bo)
 							for ft := range have {
-								if strings.Contains(ft, "call:"+pTypes+".getMerkleRootByProof == param:merkleRoot") || strings.Contains(ft, "param:merkleRoot == call:"+pTypes+".getMerkleRootByProof") {
+								if strings.Contains(ft, "call:"+pTypes+".getMerkleRootByProof == param#3") || strings.Contains(ft, "param#3 == call:"+pTypes+".getMerkleRootByProof") {
 									ok = true
 								}
 							}
@@ -417,7 +417,7 @@ func ruleC30(c *Ctx) {
 		// removal of the related hash only when hash == relatedHash
 		ok := false
 		for _, s := range callsTo(gp, false, "(*container/list.List).Remove") {
-			if mentions(s.Common().Args[0], isParam("merkleHashes"), 2, nil) {
+			if mentions(s.Common().Args[0], paramN(2), 2, nil) {
 				for ft := range factsAt(s) {
 					if strings.Contains(ft, "assert:protocol/bc.Hash#0 == assert:protocol/bc.Hash#0") || (strings.Contains(ft, " == ") && strings.Contains(ft, "assert:protocol/bc.Hash")) {
 						ok = true
@@ -435,7 +435,7 @@ func ruleC30(c *Ctx) {
 				if !in[s.Block()] || !sc.Start.Dominates(s.Block()) {
 					continue
 				}
-				if mentions(s.Common().Args[0], isParam("hashList"), 2, nil) {
+				if mentions(s.Common().Args[0], paramN(0), 2, nil) {
 					eq := false
 					for ft := range factsAt(s) {
 						if strings.Contains(ft, " == ") && strings.Contains(ft, "assert:protocol/bc.Hash") {
@@ -467,4 +467,33 @@ func usesGlobal(f *ssa.Function, name string) bool {
 		}
 	}
 	return false
+}
+
+// localRole names a local cell by what it holds, not by its identifier:
+// "recv" (copy of the value receiver), "result" (the function's result cell),
+// "X()" (holds the result of a call to method/function X), or "local".
+func localRole(a *ssa.Alloc) string {
+	f := a.Parent()
+	for _, r := range *a.Referrers() {
+		if st, ok := r.(*ssa.Store); ok && st.Addr == ssa.Value(a) {
+			if p, ok := st.Val.(*ssa.Parameter); ok && len(f.Params) > 0 && f.Params[0] == p && f.Signature.Recv() != nil {
+				return "recv"
+			}
+			if call, ok := st.Val.(*ssa.Call); ok {
+				k := calleeKey(call)
+				return k[strings.LastIndex(k, ".")+1:] + "()"
+			}
+		}
+	}
+	// result cell: loaded into a Return operand
+	for _, b := range f.Blocks {
+		if ret, ok := b.Instrs[len(b.Instrs)-1].(*ssa.Return); ok {
+			for _, rv := range ret.Results {
+				if u, ok := rv.(*ssa.UnOp); ok && u.X == ssa.Value(a) {
+					return "result"
+				}
+			}
+		}
+	}
+	return "local"
 }
